@@ -313,6 +313,13 @@ def generate(model: Model):
     except Exception:  # noqa: BLE001
         pass
     try:
+        mod, tree = _fresh("_reductions")
+        for cdef in (x for x in tree.body if isinstance(x, ast.ClassDef) and x.name == "ShuffleReduce"):
+            for c_ in (x for x in ast.walk(cdef) if isinstance(x, ast.Call) and isinstance(x.func, ast.Name) and x.func.id == "_get_shuffle_preferring_order"):
+                yield "mutant", "revert:shuffle-reduce-default-disk", "R10j", mod.rel, _splice(mod.source, c_, "self.shuffle_method")
+    except Exception:  # noqa: BLE001
+        pass
+    try:
         mod, tree = _fresh("_repartition")
         for cdef in (x for x in tree.body if isinstance(x, ast.ClassDef) and x.name == "Repartition"):
             for fn in (x for x in cdef.body if isinstance(x, ast.FunctionDef) and x.name == "npartitions"):
